@@ -52,6 +52,16 @@ func (w *World) ownersAll() []*propOwner {
 			out = append(out, w.cellOwner(c))
 		}
 	}
+	if w.headerSet {
+		for _, c := range w.header.cells {
+			out = append(out, w.cellOwner(c))
+		}
+	}
+	for _, sp := range w.seps {
+		if sp.real != nil {
+			out = append(out, w.rowOwner(sp))
+		}
+	}
 	out = append(out, w.extraOwn...)
 	return out
 }
